@@ -269,6 +269,14 @@ def tier_cases(draw):
         spec["entries"] = spec["entries"] + [[b0, b0 + w, "a"], [b0 + w, b0 + 2 * w, "a"]]
         spec["maxT"] = max(spec["maxT"], b0 + 2 * w)
         s = b0 + w * draw(st.sampled_from([0.5, 1.5]))
+    if spec["type"] == "point" and style != "grid" and draw(st.integers(0, 4)) == 0:
+        # two same-labelled points closer than the library's fuzzy entry equality, the insertion point on the first or between them
+        t0 = draw(st.integers(1, 40)) / 10 + 0.05
+        w = t0 * 3e-10
+        spec["entries"] = sorted([e for e in spec["entries"] if not t0 - 0.01 < e[0] < t0 + 0.01] + [[t0, "a"], [t0 + w, "a"]])
+        spec["maxT"] = max(spec["maxT"], t0 + 1.0)
+        spec["minT"] = min(spec["minT"], t0)
+        s = draw(st.sampled_from([t0, t0 + w / 2]))
     pre = draw(st.one_of(st.none(), st.none(), st.fixed_dictionaries({"delete": st.one_of(st.none(), st.integers(0, 7))})))
     return {"tier": spec, "s": s, "d": draw(durations(style)), "mode": draw(st.sampled_from(MODES)), "pre": pre}
 
